@@ -1,3 +1,221 @@
 import Nv.OracleIO
-/-! oracle_c02 — stub (model not built yet): answers `bad-op` to every line. -/
-def main : IO Unit := Nv.oracleMain (fun (_ : Unit) _ => ((), "bad-op")) ()
+import Nv.Model.C02
+import Nv.Gen.C02
+/-!
+oracle_c02 — line protocol (threads `0..N-1`, keys `0..K-1`; `sᵢ` = shard index of key i as routed by `remap`):
+  `init <kl|klg|tkl|tkg> <hash> <nShards> <N> <K> <s0> … <s(K-1)>`   → `ok`
+  `lock|rlock|unlock|runlock <t> <k>`, `locks|rlocks|unlocks|runlocks <t> <k,k,…|->` (multi: tkl/tkg only)
+        → status vector after quiescence, one char per thread: `-` outside any call, `P` parked in a call;
+          `busy` (t is parked), `misuse` (lock of a key t holds / duplicate keys / unlock of a key t does not hold in that mode)
+  `counts <k>` → `r=<readCount> w=<writeCount> p=<0|1>`     (T-observable)
+  `entries`    → number of map entries                       (T-observable)
+  `drain`      → every thread outside a call releases what it holds (lowest thread, lowest key first), repeatedly; status vector
+When woken threads race for a further key the quiescent state is not unique: the oracle tracks the set of
+possible states and prints the set of possible answers `{a|b}`. Sleeping writers are woken in FIFO order.
+The configuration is the one regenerated from the source (`Nv.Gen.C02.cfg`).
+-/
+open Nv Nv.C02
+
+structure Snap where
+  objs : List Wrap
+  next : Nat
+  table : List (Option ObjId)
+  th : List Thread
+  fault : Bool
+deriving DecidableEq
+
+structure Env where
+  multi : Bool
+  n : Nat
+  sh : List Nat
+  N : Nat
+  K : Nat
+
+def snap (e : Env) (s : State) : Snap :=
+  ⟨(List.range s.next).map s.objs, s.next, (List.range e.K).map s.table, (List.range e.N).map s.th, s.fault⟩
+
+def ofSnap (p : Snap) : State :=
+  ⟨fun o => p.objs.getD o Wrap.empty, p.next, fun k => (p.table.getD k none), fun t => p.th.getD t Thread.init, p.fault⟩
+
+def cfg : Cfg := Nv.Gen.C02.cfg
+def Env.shf (e : Env) : Key → Nat := fun k => e.sh.getD k 0
+def Env.step (e : Env) (s : State) (a : Act) : Option State := Nv.C02.step cfg e.n e.shf s a
+
+def nGroups : Phase → Nat
+  | .reg _ _ g _ => g.length + 1
+  | .rel _ g => g.length + 1
+  | _ => 0
+
+/-- run `act` for thread `t` until its group count drops (one table-mutex section of the code) -/
+def runGroup (e : Env) (a : Act) (t : Tid) : Nat → State → State
+  | 0, s => s
+  | fuel + 1, s =>
+    match e.step s a with
+    | none => s
+    | some s' => if nGroups (s'.th t).phase < nGroups (s.th t).phase then s' else runGroup e a t fuel s'
+
+/-- runtime scheduling policy the LTS leaves open: `rw.w` (a `sync.Mutex`) wakes its sleepers in FIFO order, so a
+sleeping writer that is not the oldest does not compete (threads that never slept may barge, as in Go) -/
+def asleepBehind (s : State) (t : Tid) : Bool :=
+  match (s.th t).phase with
+  | .acq .w _ ((_, o) :: _) =>
+    let w := s.objs o
+    decide (t ∈ w.pendW) && w.pendW.head? != some t
+  | _ => false
+
+/-- the next macro step of thread `t`, if it is enabled -/
+def macroStep (e : Env) (s : State) (t : Tid) : Option State :=
+  match (s.th t).phase with
+  | .idle => none
+  | .reg .. => some (runGroup e (.reg t) t (e.K + 2) s)
+  | .rel .. => some (runGroup e (.rel t) t (e.K + 2) s)
+  | .acq .. => if asleepBehind s t then none else e.step s (.lock t)
+
+def insertNew (e : Env) (seen : List Snap) (s : State) : List Snap × Option State :=
+  let p := snap e s
+  if p ∈ seen then (seen, none) else (p :: seen, some (ofSnap p))
+
+/-- all quiescent states reachable from the frontier, exploring every order of the enabled macro steps -/
+def settleLoop (e : Env) : Nat → List State → List Snap → List Snap → List Snap
+  | 0, _, _, quiet => quiet
+  | _, [], _, quiet => quiet
+  | fuel + 1, s :: rest, seen, quiet =>
+    let succs := (List.range e.N).filterMap (macroStep e s)
+    if succs.isEmpty then
+      let p := snap e s
+      settleLoop e fuel rest seen (if p ∈ quiet then quiet else p :: quiet)
+    else
+      let (seen', fresh) := succs.foldl (fun (acc : List Snap × List State) s' =>
+        match insertNew e acc.1 s' with
+        | (sn, some x) => (sn, x :: acc.2)
+        | (sn, none) => (sn, acc.2)) (seen, [])
+      settleLoop e fuel (fresh ++ rest) seen' quiet
+
+def settle (e : Env) (s : State) : List State :=
+  ((settleLoop e 100000 [s] [] []).reverse).map ofSnap
+
+def statusVec (e : Env) (s : State) : String :=
+  if s.fault then "fault" else
+  String.ofList ((List.range e.N).map fun t => if (s.th t).phase = .idle then '-' else 'P')
+
+/-- one call op on one possible state: resulting states, or a refusal -/
+def doCall (e : Env) (s : State) (a : Act) (t : Tid) : List State ⊕ String :=
+  if s.fault then .inr "fault" else
+  if (s.th t).phase ≠ .idle then .inr "busy" else
+  match e.step s a with
+  | none => .inr "misuse"
+  | some s' => .inl (settle e s')
+
+/-- first (thread, key, mode) to release in a drain: lowest thread outside a call that holds something, its lowest key -/
+def drainPick (e : Env) (s : State) : Option (Tid × Key × Mode) :=
+  (List.range e.N).findSome? fun t =>
+    if (s.th t).phase = .idle then
+      (List.range e.K).findSome? fun k =>
+        (s.th t).held.findSome? fun h => if h.1 = k then some (t, k, h.2.2) else none
+    else none
+
+def drainLoop (e : Env) : Nat → List State → List Snap → List Snap
+  | 0, _, done => done
+  | _, [], done => done
+  | fuel + 1, s :: rest, done =>
+    match (if s.fault then none else drainPick e s) with
+    | none => let p := snap e s; drainLoop e fuel rest (if p ∈ done then done else p :: done)
+    | some (t, k, m) =>
+      match e.step s (.uncall t m [k]) with
+      | none => let p := snap e s; drainLoop e fuel rest (if p ∈ done then done else p :: done)
+      | some s' => drainLoop e fuel (settle e s' ++ rest) done
+
+def dedupStr : List String → List String
+  | [] => []
+  | x :: xs => if x ∈ dedupStr xs then dedupStr xs else x :: dedupStr xs
+
+def showSet (l : List String) : String :=
+  match dedupStr l with
+  | [x] => x
+  | xs => "{" ++ "|".intercalate xs ++ "}"
+
+def dedupStates (e : Env) (l : List State) : List State :=
+  (l.foldl (fun (acc : List Snap) s => let p := snap e s; if p ∈ acc then acc else acc ++ [p]) []).map ofSnap
+
+structure OS where
+  env : Option Env
+  states : List State
+
+/-- decimal digits only, no leading zero (the runner parses the same way) -/
+def strictNat? (s : String) : Option Nat :=
+  let cs := s.toList
+  if cs.isEmpty || !cs.all Char.isDigit || (cs.length > 1 && cs.head? == some '0') || cs.length > 6 then none
+  else some (cs.foldl (fun n c => 10 * n + (c.toNat - '0'.toNat)) 0)
+
+def parseKeys (K : Nat) (s : String) : Option (List Key) :=
+  if s == "-" then some [] else
+  (s.splitOn ",").mapM fun w => match strictNat? w with
+    | some k => if k < K then some k else none
+    | none => none
+
+def parseInit (ws : List String) : Option Env :=
+  match ws with
+  | kind :: hash :: n :: nT :: nK :: shs =>
+    match strictNat? n, strictNat? nT, strictNat? nK, shs.mapM strictNat? with
+    | some n, some nT, some nK, some shs =>
+      let single := kind == "kl" || kind == "tkl"
+      let multi := kind == "tkl" || kind == "tkg"
+      let known := single || kind == "klg" || kind == "tkg"
+      if known && (hash == "mod" || hash == "xh" || hash == "str") && n ≥ 1 && n ≤ 100 && nT ≥ 1 && nT ≤ 16 && nK ≥ 1 && nK ≤ 16 && shs.length == nK && shs.all (· < n) && (!single || n == 1)
+      then some ⟨multi, n, shs, nT, nK⟩ else none
+    | _, _, _, _ => none
+  | _ => none
+
+def callOp (os : OS) (e : Env) (t : Tid) (mk : Tid → Act) : OS × String :=
+  let rs := os.states.map fun s => (s, doCall e s (mk t) t)
+  let next := rs.flatMap fun (s, r) => match r with | .inl l => l | .inr _ => [s]
+  let outs := rs.flatMap fun (_, r) => match r with | .inl l => l.map (statusVec e) | .inr m => [m]
+  ({ os with states := dedupStates e next }, showSet outs)
+
+def step (os : OS) (line : String) : OS × String :=
+  match words line with
+  | "init" :: rest =>
+    match parseInit rest with
+    | some e => (⟨some e, [State.init]⟩, "ok")
+    | none => (⟨none, []⟩, "bad-op")
+  | ws =>
+    match os.env with
+    | none => (os, "bad-op")
+    | some e =>
+      let single (m : Mode) (un : Bool) (t k : String) : OS × String :=
+        match strictNat? t, strictNat? k with
+        | some t, some k =>
+          if t < e.N && k < e.K then callOp os e t (fun t => if un then .uncall t m [k] else .call t m [k]) else (os, "bad-op")
+        | _, _ => (os, "bad-op")
+      let multi (m : Mode) (un : Bool) (t ks : String) : OS × String :=
+        if !e.multi then (os, "bad-op") else
+        match strictNat? t, parseKeys e.K ks with
+        | some t, some ks =>
+          if t < e.N then callOp os e t (fun t => if un then .uncall t m ks else .call t m ks) else (os, "bad-op")
+        | _, _ => (os, "bad-op")
+      match ws with
+      | ["lock", t, k] => single .w false t k
+      | ["rlock", t, k] => single .r false t k
+      | ["unlock", t, k] => single .w true t k
+      | ["runlock", t, k] => single .r true t k
+      | ["locks", t, ks] => multi .w false t ks
+      | ["rlocks", t, ks] => multi .r false t ks
+      | ["unlocks", t, ks] => multi .w true t ks
+      | ["runlocks", t, ks] => multi .r true t ks
+      | ["counts", k] =>
+        match strictNat? k with
+        | some k =>
+          if k < e.K then
+            (os, showSet (os.states.map fun s => match s.table k with
+              | none => "r=0 w=0 p=0"
+              | some o => s!"r={(s.objs o).rc} w={(s.objs o).wc} p=1"))
+          else (os, "bad-op")
+        | none => (os, "bad-op")
+      | ["entries"] =>
+        (os, showSet (os.states.map fun s => toString ((List.range e.K).filter (fun k => (s.table k).isSome)).length))
+      | ["drain"] =>
+        let next := (drainLoop e 10000 os.states []).reverse.map ofSnap
+        ({ os with states := next }, showSet (next.map (statusVec e)))
+      | _ => (os, "bad-op")
+
+def main : IO Unit := oracleMain step ⟨none, []⟩
